@@ -8,7 +8,7 @@ Bytes hostile_wire_name(Rng &r, const std::string &suffix_dotted, int anomaly);
 // datagrams aimed at iodined's DNS socket
 Bytes hostile_query_random(Rng &r);                                      // L0
 Bytes hostile_query_dnsshaped(Rng &r, const std::string &domain);        // L1
-Bytes hostile_query_command(Rng &r, const std::string &domain, int nusers_hint); // L2
+Bytes hostile_query_command(Rng &r, const std::string &domain, int nusers_hint, int own_uid = -1); // L2; own_uid: an insider that mostly uses its own user id
 Bytes hostile_raw_frame(Rng &r);                                         // L4
 Bytes hostile_tun_packet(Rng &r, uint32_t dst_ip_h);
 // answers aimed at the iodine client: keeps id+question of `orig` when usable
